@@ -29,7 +29,7 @@ CONFIG = dict(
     min_nontrivial={"quick": 600, "thorough": 10000},
     nshards={"quick": 8, "thorough": 16},
     timeout={"quick": 600, "thorough": 3600},
-    required_counters=("inject_runs", "out_of_range_runs", "decompile_runs", "results_compared", "subprocess_runs"),
+    required_counters=("framing_checked", "inject_runs", "out_of_range_runs", "decompile_runs", "results_compared", "subprocess_runs"),
 )
 
 INJ = "__import__('vp_sink').hit('CLI')"
@@ -160,6 +160,13 @@ def check_inject(ctx, f, cli, parts, k, run_last, replace, source):
             return
     exp = f.Pickled.load(parts[k])
     exp.insert_python_eval(INJ, run_first=not run_last, use_output_as_unpickle_result=replace)
+    if gen.frames_wellformed(parts[k]) is None:
+        agg.count("framing_checked")
+        fault = gen.frames_wellformed(got[k])
+        if fault is not None:
+            agg.violation("inject-breaks-framing", f"the input's pickle {k} is well framed, the emitted one is not: {fault}",
+                          dict(w, parts_hex=[p.hex()[:200] for p in parts]))
+            return
     if got[k] != exp.dumps():
         agg.violation("inject-target-differs", "target pickle differs from the library's injection with the same flags",
                       dict(w, got=got[k].hex()[:400], expected=exp.dumps().hex()[:400]))
@@ -235,6 +242,16 @@ def stacks(ctx):
         out.append([rng.choice(pool) for _ in range(rng.randint(1, 5))])
     # directed: all five parts create variables
     out.append([pool[-1], pool[-2], pool[30], pool[31], pool[40]])
+    # directed: protocol 4/5 pickles with several FRAMEs, and with a large object written outside the frames that is
+    # followed by only a few opcodes (checkpoint-like dicts whose last value is a big blob)
+    meta = {("key_%05d" % i) * 4: i for i in range(4000)}
+    for proto in (4, 5):
+        big = [pickle.dumps({"step": 1, "weights": b"x" * 100000}, proto), pickle.dumps(["a", "y" * 70000], proto),
+               pickle.dumps({"meta": meta}, proto), pickle.dumps([b"z" * 66000, 1], proto), pickle.dumps((b"w" * 65536,), proto)]
+        for bi, b in enumerate(big):
+            out.append([pool[bi], b, pool[3 + bi]])
+            out.append([b])
+        out.append([big[0], big[1]])
     return out
 
 
